@@ -402,6 +402,11 @@ from ..names_check import names_clause  # noqa: E402
 if names_clause("C15") is not None:
     CLAUSES.append(names_clause("C15"))
 
+from .. import decoders as D  # noqa: E402
+from ..envcheck import env_clauses  # noqa: E402
+
+CLAUSES.extend(env_clauses("C15", ("pus",)))
+
 PROPERTY = Property(
     id="C15",
     level="exploration",
